@@ -14,7 +14,8 @@ LEVEL = 'exploration'
 RULE = ('seeded random spectra (random/degenerate/zeros/unnormalised/unsorted/dyadic-exact/length-1) x random option '
         'sets (None, absent, plain dict or Config); oracle enumerates all cuts; non-trivial = the oracle cut is >0 '
         'and <n-1 or at least two constraints are active; distinct = (family, n, option-pattern, cut) signature; '
-        'matrix parts: distinct (charge structure, options, kept) signatures')
+        'matrix parts: distinct (charge structure, options, kept) signatures'
+        ' Also: eigh_rho with UPLO and junk in the unused triangle.')
 ASSUMPTIONS = [
     'constraint comparisons closer than 1e-9 relative (but not exactly equal) are skipped as ties (counted)',
     'defaults for absent options are those read by truncate(): chi_max=100, svd_min=1e-14, trunc_cut=1e-14',
